@@ -136,7 +136,7 @@ def run(module, *, scratch, constants=None, init='Init', next_='Next', spec=None
   with open(cfg_path, 'w') as f:
     f.write('\n'.join(cfg) + '\n')
   nworkers = workers or min(16, os.cpu_count() or 1)
-  jvm = ['java', '-XX:+UseParallelGC', '-Xmx8g', f'-DTLA-Library={SPEC_DIR}']
+  jvm = ['java', '-XX:+UseParallelGC', '-Xmx8g', '-Xss256m', f'-DTLA-Library={SPEC_DIR}']
   if dfs:
     jvm.append('-Dtlc2.tool.queue.IStateQueue=StateDeque')
   cmd = jvm + ['-cp', f'{JAR}:{DEPS}', 'tlc2.TLC', '-workers', str(nworkers), '-metadir',
